@@ -23,7 +23,10 @@ CONN_QUICK = [("tls", 2, 2, 1, 4, "after"), ("gm", 2, 1, 1, 4, "after"), ("tls",
               ("gm", 1, 1, 3, 6, "half"), ("tls", 2, 1, 3, 6, "half"),
               # "badrec": while Writes on A are blocked in the transport a forged record reaches A's reader, which answers with an alert
               ("gm", 2, 1, 0, 3, "badrec"), ("tls", 2, 2, 0, 3, "badrec"), ("gm", 1, 1, 0, 2, "badrec")]
-CONN_THOROUGH = CONN_QUICK + [("tls", 4, 2, 2, 8, "after"), ("gm", 4, 1, 2, 8, "after"), ("tls", 4, 2, 3, 8, "during"), ("gm", 4, 1, 3, 8, "during"), ("gm", 2, 1, 4, 8, "half"), ("tls", 2, 2, 4, 8, "half")] * 2
+# (the linearisation search grows as 3^(operations in flight): four writers with eight multi-record messages each took more than
+# 20 minutes per history on this machine; the thorough tier stays at six messages and one repetition)
+CONN_THOROUGH = CONN_QUICK + [("tls", 4, 2, 2, 6, "after"), ("gm", 4, 1, 2, 6, "after"), ("tls", 3, 2, 3, 6, "during"), ("gm", 3, 1, 3, 6, "during"), ("gm", 2, 1, 4, 6, "half"), ("tls", 2, 2, 4, 6, "half"),
+                              ("gm", 3, 1, 0, 4, "badrec"), ("tls", 3, 2, 0, 4, "badrec")]
 
 # (mode, clients, handshakes per client, rotations)
 # several handshakes of every client fall between two rotations: the first of them offers a ticket under the OLD key, and
